@@ -292,6 +292,61 @@ macro_rules! out_all {
     ($chk:expr, $id:expr, $cnt:expr, $T:ty; $($P:ty),*) => {$( check_out::<$T, $P>($chk, $id, $cnt); )*};
 }
 
+// Conversions that the current tree does NOT implement (probed by autoref specialisation, so this
+// compiles either way): if a change adds one, it is judged like all the others.
+struct Probe<T, P>(core::marker::PhantomData<(T, P)>);
+trait TfYes<T, P> {
+    fn tf(&self, p: P) -> Option<Option<u16>>;
+}
+trait TfNo<T, P> {
+    fn tf(&self, p: P) -> Option<Option<u16>>;
+}
+impl<T: NT + TryFrom<P>, P> TfYes<T, P> for Probe<T, P> {
+    fn tf(&self, p: P) -> Option<Option<u16>> {
+        Some(T::try_from(p).ok().map(|t| t.getw()))
+    }
+}
+impl<T, P> TfNo<T, P> for &Probe<T, P> {
+    fn tf(&self, _p: P) -> Option<Option<u16>> {
+        None
+    }
+}
+
+macro_rules! probe_into {
+    ($chk:expr, $id:expr, $cnt:expr, $T:ty, $P:ty) => {{
+        let pr = Probe::<$T, $P>(core::marker::PhantomData);
+        let mut exists = false;
+        let mut p: $P = <$P>::MIN;
+        loop {
+            let (neg, mag) = p.wide();
+            let in_range = !neg && mag <= <$T as NT>::MAXV as u128;
+            match catch(|| (&pr).tf(p)) {
+                Ok(None) => break,
+                Ok(Some(g)) => {
+                    exists = true;
+                    $cnt.evals.fetch_add(1, Ordering::Relaxed);
+                    let bad = match g {
+                        None => in_range,
+                        Some(v) => !in_range || v as u128 != mag,
+                    };
+                    if bad {
+                        vio!($chk, $id, if in_range { "rejects-in-range-input" } else { "accepts-out-of-range-input" }, format!("{}->{}(new impl)", <$P as Prim>::NAME, <$T as NT>::NAME), format!("into|{}|{}|{}", <$T as NT>::NAME, <$P as Prim>::NAME, p), "{}::try_from({}{}) = {:?} (a conversion that did not exist on the pinned tree)", <$T as NT>::NAME, p, <$P as Prim>::NAME, g);
+                    }
+                }
+                Err(msg) => {
+                    exists = true;
+                    vio!($chk, $id, "conversion-panics", format!("{}->{}(new impl)", <$P as Prim>::NAME, <$T as NT>::NAME), format!("into|{}|{}|{}", <$T as NT>::NAME, <$P as Prim>::NAME, p), "{}::try_from({}{}) panicked: {}", <$T as NT>::NAME, p, <$P as Prim>::NAME, msg);
+                }
+            }
+            if p == <$P>::MAX {
+                break;
+            }
+            p += 1;
+        }
+        $chk.push("conversions_not_on_pinned_tree", json!({"conv": format!("{}->{}", <$P as Prim>::NAME, <$T as NT>::NAME), "implemented_now": exists}));
+    }};
+}
+
 /// All ~150 conversions. `id` is "C04" or "C05" (the same judgement, reported under the property
 /// the caller is checking).
 pub fn conversions(chk: &Check, id: &str, tier: Tier, cnt: &Counters) {
@@ -301,6 +356,13 @@ pub fn conversions(chk: &Check, id: &str, tier: Tier, cnt: &Counters) {
     into_all!(chk, id, tier, cnt, KeyNumber; u8, u16, i16, u32, i32, u64, i64, u128, i128, usize, isize);
     into_all!(chk, id, tier, cnt, ControllerNumber; u8, u16, i16, u32, i32, u64, i64, u128, i128, usize, isize);
     into_all!(chk, id, tier, cnt, U14; u8, i8, u16, u32, i32, u64, i64, u128, i128, usize);
+    // the primitive sources for which the pinned tree has NO fallible conversion (complete domains)
+    probe_into!(chk, id, cnt, U4, i8);
+    probe_into!(chk, id, cnt, U7, i8);
+    probe_into!(chk, id, cnt, Channel, i8);
+    probe_into!(chk, id, cnt, KeyNumber, i8);
+    probe_into!(chk, id, cnt, ControllerNumber, i8);
+    probe_into!(chk, id, cnt, U14, i16);
     // newtype -> newtype
     check_nt_to_nt::<U4, U7>(chk, id, cnt);
     check_nt_to_nt::<U4, U14>(chk, id, cnt);
@@ -419,7 +481,7 @@ fn parsing_for<T: NT>(chk: &Check, id: &str, tier: Tier, cnt: &Counters) {
     let mut tot = 0u64;
     let mut acc = 0u64;
     for v in 0..=(T::MAXV as u32 + 300) {
-        for zeros in [0usize, 1, 2, 3, 9] {
+        for zeros in [0usize, 1, 2, 3, 9, 36, 37, 38, 39, 40, 41, 64, 300] {
             for plus in ["", "+"] {
                 let s = format!("{}{}{}", plus, "0".repeat(zeros), v);
                 tot += 1;
